@@ -191,7 +191,13 @@ func NewReaderCat(in io.Reader, cat Catalog) Reader {
 		return newBinaryReaderBuf(br, cat)
 	}
 
-	return newTextReaderBuf(br, cat)
+	tr := newTextReaderBuf(br, cat)
+	if err != nil && err != io.EOF {
+		// The input failed while we were sniffing the format; bufio reports a
+		// read error only once, so it must not be dropped here.
+		tr.(*textReader).explode(&IOError{err})
+	}
+	return tr
 }
 
 // A reader holds common implementation stuff to both the text and binary readers.
